@@ -772,7 +772,7 @@ func (vc *VC) mergeHeaps(conds []string, hs []Heap) Heap {
 			keys[k] = true
 		}
 	}
-	for k := range keys {
+	for _, k := range sortedKeys(keys) { // sorted: the VC text must not depend on map iteration order
 		get := func(h Heap) string {
 			if n, ok := h.M[k]; ok {
 				return n
